@@ -2,7 +2,7 @@
 //!
 //! Explicit-state search over all op sequences up to a depth on the real `Dataset` (in-memory store,
 //! fresh session per step) over the alphabet
-//!   add_columns: SQL `k + 1` | `<v> || 'x'` | `42` | `uid + 100` (column n1), all-null (n2),
+//!   add_columns: SQL `k + 1` | `<v> || 'x'` | `42` | `uid + 100` | `CAST(NULL AS int)` (column n1), all-null (n2),
 //!                batch UDF (n3 = uid*2), record-batch reader (n4 = "s<row ordinal>"),
 //!   merge (left join on k with a right table that has keys {0, 1, 7}) -> column m,
 //!   alter: rename v<->w, cast k int32->int64, uid NOT NULL -> nullable,
@@ -29,7 +29,7 @@ use vstore::{MemStore, Snapshot};
 
 #[derive(Clone, Debug, Serialize, Deserialize, PartialEq, Eq)]
 pub enum Op {
-    /// add column n1 from SQL expression i: 0 `k + 1`, 1 `<v> || 'x'`, 2 `42`, 3 `uid + 100`
+    /// add column n1 from SQL expression i: 0 `k + 1`, 1 `<v> || 'x'`, 2 `42`, 3 `uid + 100`, 4 `CAST(NULL AS int)` (metadata-only all-null path)
     AddSql(u8),
     AddNull,
     AddUdf,
@@ -133,7 +133,7 @@ fn gen_array(field: &Field, uids: &[i32], m: &Model) -> ArrayRef {
     }
 }
 
-const SQL: [&str; 4] = ["k + 1", "{v} || 'x'", "42", "uid + 100"];
+const SQL: [&str; 5] = ["k + 1", "{v} || 'x'", "42", "uid + 100", "CAST(NULL AS int)"];
 
 fn add_i(c: &Cell, d: i64) -> Cell {
     match c {
@@ -153,6 +153,7 @@ fn alphabet(wide: bool) -> Vec<Op> {
         Op::AddSql(0),
         Op::AddSql(1),
         Op::AddSql(3),
+        Op::AddSql(4),
         Op::AddNull,
         Op::AddUdf,
         Op::Merge,
@@ -226,6 +227,7 @@ fn apply_model(m: &mut Model, op: &Op, nested: bool) -> Option<String> {
                     _ => Cell::Null,
                 },
                 2 => Cell::I(42),
+                4 => Cell::Null,
                 _ => add_i(&r[m.col("uid").unwrap()], 100),
             });
             Some("n1".into())
